@@ -407,10 +407,15 @@ def run(ctx, rep):
                 dst = s["p"]["l"]
                 srcs = op_locals(rv)
                 c = {i for (l, i) in carry if l in srcs}
+                if rv["k"] == "binop":
+                    c = {i for i in c if i[0] != "k"}          # a constant held in a local is consumed by the addition
                 if rv["k"] == "binop" and rv["op"].startswith("Add"):
-                    for o in (rv["a"], rv["b"]):
-                        if o["k"] == "const" and "int" in o:
-                            w = int(o["int"])
+                    added = [int(o["int"]) for o in (rv["a"], rv["b"]) if o["k"] == "const" and "int" in o]
+                    # `let head = TAG_SIZE; ... head + body`: the width arrives through a local that holds a constant
+                    added += [i[1] for o in (rv["a"], rv["b"]) if o["k"] in ("copy", "move") and not o["p"]["proj"]
+                              for (l, i) in carry if l == o["p"]["l"] and i[0] == "k"]
+                    for w in added:
+                        if True:
                             f = next((x for x in pend if x[0] == "f" and x[1] == w), None)
                             if f:
                                 pend.discard(f)
@@ -419,6 +424,8 @@ def run(ctx, rep):
                 if not s["p"]["proj"]:
                     carry = {(l, i) for (l, i) in carry if l != dst}
                 carry |= {(dst, i) for i in c}
+                if rv["k"] == "use" and rv["a"]["k"] == "const" and "int" in rv["a"] and not s["p"]["proj"] and int(rv["a"]["int"]) != 0:
+                    carry.add((dst, ("k", int(rv["a"]["int"]))))
             t = g.term(n)
             if t["k"] == "call":
                 dl = t["dest"]["l"]
